@@ -3,7 +3,6 @@ package work
 import (
 	"crypto"
 	"crypto/sha512"
-	"strings"
 
 	"github.com/oasisprotocol/curve25519-voi/curve/scalar"
 	"github.com/oasisprotocol/curve25519-voi/primitives/ed25519"
@@ -14,8 +13,6 @@ import (
 // Second batch of C19 entry points: constructors, default-option forms, output
 // buffers, private-key-taking provers, pre-hashed verification.
 func c19MoreTargets() []c19Target {
-	never := func(string) bool { return false }
-	pkLenPanic := func(m string) bool { return strings.HasPrefix(m, "ed25519: bad public key length") }
 	det := func() *DetReader { return NewDetReader(777) }
 	genScalar := func(c *c19Ctx) []byte { return mustMarshal(c.g.Scalar().MarshalBinary()) }
 	genEdSig := func(c *c19Ctx) []byte {
@@ -32,9 +29,6 @@ func c19MoreTargets() []c19Target {
 	}
 	var ts []c19Target
 	add := func(t c19Target) {
-		if t.allowPanic == nil {
-			t.allowPanic = never
-		}
 		ts = append(ts, t)
 	}
 	ctor := func(name string, size int, canonical bool, gen func(c *c19Ctx) []byte, f func(b []byte) (*scalar.Scalar, error)) {
@@ -73,7 +67,7 @@ func c19MoreTargets() []c19Target {
 		try: func(c *c19Ctx, prev, b []byte) c19Res {
 			return c19Res{ok: ed25519.Verify(c.aux["pk"], c.aux["msg"], b)}
 		}})
-	add(c19Target{name: "ed25519.Verify(public key)", size: 32, gen: genEdPk, allowPanic: pkLenPanic,
+	add(c19Target{name: "ed25519.Verify(public key)", size: 32, gen: genEdPk, panicsOnLength: true,
 		try: func(c *c19Ctx, prev, b []byte) c19Res {
 			return c19Res{ok: ed25519.Verify(b, c.aux["msg"], c.aux["sig"])}
 		}})
@@ -114,7 +108,7 @@ func c19MoreTargets() []c19Target {
 	// pre-hashed verification: the message is a 64-byte digest; any other length is a documented panic of
 	// single verification and an invalid entry in a batch
 	add(c19Target{name: "ed25519.VerifyWithOptions[ph](message digest)", size: 64,
-		allowPanic: func(m string) bool { return strings.HasPrefix(m, "ed25519: bad message hash length") },
+		panicsOnLength: true,
 		gen: func(c *c19Ctx) []byte {
 			c.priv = c.g.EdKey()
 			c.aux["pk"] = clone(c.priv[32:])
@@ -152,8 +146,8 @@ func c19MoreTargets() []c19Target {
 			return c19Res{ok: err == nil && err2 == nil}
 		}})
 	add(c19Target{name: "ecvrf.Prove(private key)", size: 64,
-		allowPanic: func(m string) bool { return strings.HasPrefix(m, "ecvrf: bad private key length") },
-		gen:        func(c *c19Ctx) []byte { c.aux["msg"] = c.g.Msg(); return clone(c.g.EdKey()) },
+		panicsOnLength: true,
+		gen:            func(c *c19Ctx) []byte { c.aux["msg"] = c.g.Msg(); return clone(c.g.EdKey()) },
 		try: func(c *c19Ctx, prev, b []byte) c19Res {
 			pi := ecvrf.Prove(ed25519.PrivateKey(b), c.aux["msg"])
 			return c19Res{ok: len(pi) == ecvrf.ProofSize}
